@@ -196,6 +196,74 @@ ENCODED = ["twisted.web._http2:H2Connection._sendPrioritisedData", "twisted.web.
 BOUNDS = {"quick": {"ns": 2, "hns": 1, "hist": 2, "hfull": 0, "cap": 1 << 20},
           "thorough": {"ns": 2, "hns": 2, "hist": 2, "hfull": 1, "cap": 1 << 20}}
 B = {}
+BOUNDS_TEXT = ("inductive steps from ANY state of the sending machinery satisfying the representation invariant: "
+               "connection window 0..cap, every stream window -cap..cap (negative after a SETTINGS shrink), max frame "
+               "size 1..cap (cap = 1 MiB), per stream 0-2 queued chunks of any length 0..cap plus optional end marker, "
+               "any amount already sent, schedulable or not, no / producing / paused push producer; loop scheduled, "
+               "asleep, or waiting behind the paused transport; then ONE reactor turn (any scheduler choice), ONE "
+               "peer frame (WINDOW_UPDATE stream/connection with any increment, SETTINGS_INITIAL_WINDOW_SIZE change "
+               "of either sign, SETTINGS_MAX_FRAME_SIZE) or ONE application/transport operation (write, "
+               "writeSequence of two chunks, requestDone, abort, registerProducer, transport pause/resume).  quick: "
+               "1 stream in full, 2 streams for the reactor turn with the second stream in a reduced state set (no "
+               "producer, not finished, <= 1 chunk); thorough: 2 streams for all steps (reduced second stream for "
+               "events / operations, full for the turn).  Histories from a fresh connection (requests through the "
+               "real _requestReceived): optional first turn, hist = 2 operations (quick: 1 stream, alphabet without "
+               "writeSequence / max-frame-size / transport pause+resume; thorough: 1-2 streams, full alphabet), any "
+               "sizes/increments <= cap, then a liveness phase (fair scheduler) and a drain phase (all windows "
+               "opened)")
+OUTSIDE = ["the real h2 frame codec / state machine and the real `priority` tree: both are replaced by contract "
+           "models (see ASSUMPTIONS); weights and dependencies of the priority tree (only 'some unblocked stream' "
+           "is assumed, so any weighting is covered, fairness is assumed only for the liveness phase)",
+           "three or more concurrent streams; more than two queued chunks per stream in the inductive pre-state "
+           "(the code treats queue lengths uniformly; conservation is checked chunk-exactly)",
+           "request bodies (inbound flow control, H2Stream.pause/resumeProducing), HEADERS / control-frame "
+           "buffering limits, timeouts, GOAWAY, connectionLost",
+           "application misuse: write / requestDone after requestDone, operations on a stream after it was cleaned "
+           "up, a second pauseProducing from the transport without resumeProducing in between",
+           "pull producers (wrapped by _PullToPush) and producers that write re-entrantly from inside "
+           "pauseProducing / resumeProducing",
+           "CPU cost: a schedulable stream whose window is closed makes _sendPrioritisedData re-schedule itself "
+           "with callLater(0) without progress until the peer opens the window (observed, not a violation of "
+           "this property)",
+           "histories longer than hist operations end-to-end (covered only through the inductive steps)"]
+ASSUMPTIONS = ["fake `priority` module (the package is not installed): PriorityTree with insert_stream (streams start "
+               "unblocked; DuplicateStreamError), remove_stream / block / unblock / reprioritize (MissingStreamError "
+               "for unknown ids), next(tree) = SOME unblocked stream, chosen by the solver in the turn step and in "
+               "history turns, round-robin (fair) in the liveness / drain phases; DeadlockError when none",
+               "fake h2 connection `_FakeH2` replacing H2Connection.conn: outbound windows as ints; "
+               "local_flow_control_window = min(connection, stream) and StreamClosedError for a closed stream; "
+               "send_data raises FlowControlError iff len > 0 and len > window, else FrameTooLargeError iff len > "
+               "max_outbound_frame_size, else subtracts len from both windows and records the payload; end_stream / "
+               "reset_stream close the stream (StreamClosedError afterwards); send_headers raises StreamClosedError "
+               "on a closed stream; WINDOW_UPDATE adds the increment to the stream or connection window and yields "
+               "h2.events.WindowUpdated (nothing for a closed stream); a SETTINGS_INITIAL_WINDOW_SIZE change adds "
+               "new - old to every open stream window (may go negative), not to the connection window, and yields "
+               "h2.events.RemoteSettingsChanged; SETTINGS_MAX_FRAME_SIZE sets max_outbound_frame_size; "
+               "data_to_send returns one byte when something was emitted, else b''; receive_data returns the "
+               "queued events (real h2.events classes); validated against the real h2 4.x on a concrete corpus in "
+               "selftest()",
+               "the name `h2` inside twisted.web._http2 is rebound to a namespace whose config.H2Configuration / "
+               "connection.H2Connection build nothing (the object is replaced by the fake right after __init__); "
+               "events, exceptions, errors, settings are the real h2 modules",
+               "fake reactor: callLater records the call, the harness runs the oldest pending call = one reactor "
+               "turn; fake transport records writes; stub Request (requestFactory) with real Headers; passive fake "
+               "IPushProducer recording pause/resume",
+               "ropes: response data is opaque (spans of a master stream, stream i owns positions i * 2**23 ...); "
+               "any content access by the code under test raises RopeContentAccess",
+               "inductive pre-states are constructed directly on a connection whose streams were created by the "
+               "real dataReceived -> _requestReceived: queues, windows, priority flags, producer flags, loop state "
+               "are overwritten",
+               "representation invariant assumed for the steps and checked after every step and after every "
+               "history operation from a fresh connection: J1 the loop sleeps on _sendingDeferred only while every "
+               "schedulable stream has a closed window and no end marker at its head; J2 a live stream with queued "
+               "data and an open window is schedulable, a finished stream is schedulable; J3 a schedulable stream has "
+               "a non-empty queue; J4 a producer is paused only while remainingOutboundWindow <= 0; exactly one "
+               "continuation of the loop exists (delayed call, _sendingDeferred, or callback behind the transport); "
+               "sent + queued == written per stream; end marker queued iff requestDone, last, once",
+               "peer increments keep windows below 2**31 (sizes <= 1 MiB); the peer never sends WINDOW_UPDATE 0"]
+EXPLANATION = ("real H2Connection/H2Stream flow-control code on ropes with symbolic windows, sizes, increments and "
+               "scheduler choices against contract models of h2 and priority: one step from an arbitrary invariant "
+               "state, and short histories with liveness and drain phases")
 
 _SENT = _h2mod._END_STREAM_SENTINEL
 _SIDS = (1, 3, 5)
@@ -887,6 +955,11 @@ def step_event(ns: int, cw: int, mfs: int, loop: int, ev: int, k: int, x: int,
         return False
     if loop != 1 and len(w.fc.log) != nlog:
         return False
+    # back-pressure: a producer that was paused is resumed only if there is room again
+    if ns == 1 or loop != 1:
+        for i in range(ns):
+            if per[i][7] == 2 and _prod_state(w, i) == 1 and w.c.remainingOutboundWindow(_SIDS[i]) <= 0:
+                return False
     return True
 
 
@@ -958,11 +1031,9 @@ def _run_turns(w, n):
             break
 
 
-def _opok(o):
-    """quick tier: the history alphabet leaves out writeSequence, SETTINGS_MAX_FRAME_SIZE and the transport's
-    pause / resume (all four are exercised by the step harnesses from every state)"""
-    if B['hfull']:
-        return True
+def _opok(o, ns):
+    """reduced history alphabet (quick tier; thorough tier with two streams): without writeSequence,
+    SETTINGS_MAX_FRAME_SIZE and the transport's pause / resume (all exercised by the step harnesses)"""
     return _all(o != 1, o != 6, o != 9, o != 10)
 
 
@@ -1077,7 +1148,7 @@ def history(ns: int, cw: int, iws: int, mfs: int, y: int, idle0: bool,
     """
     pre: _all(_rng(1, ns, B['hns']), _rng(0, cw, B['cap']), _rng(0, iws, B['cap']), _rng(1, mfs, B['cap']), _rng(0, y, B['cap']))
     pre: _all(_rng(0, o0, 10), _rng(0, o1, 11), _rng(0, o2, 11), _rng(0, o3, 11), rope.bor(o3 == 11, B['hist'] >= 4), rope.bor(o2 == 11, B['hist'] >= 3))
-    pre: _all(_opok(o0), _opok(o1), _opok(o2), _opok(o3))
+    pre: rope.bor(rope.band(B['hfull'] == 1, ns == 1), _all(_opok(o0, ns), _opok(o1, ns), _opok(o2, ns), _opok(o3, ns)))
     pre: _all(_rng(0, k0, ns - 1), _rng(0, k1, ns - 1), _rng(0, k2, ns - 1), _rng(0, k3, ns - 1))
     pre: _all(_rng(0, x0, B['cap']), _rng(0, x1, B['cap']), _rng(0, x2, B['cap']), _rng(0, x3, B['cap']))
     post: _
@@ -1086,19 +1157,22 @@ def history(ns: int, cw: int, iws: int, mfs: int, y: int, idle0: bool,
 
 
 _R1 = "prod1 == 0 and not done1 and nq1 <= 1"      # second stream in a reduced set of states
+_R0 = "prod0 == 0 and not done0 and nq0 <= 1"
 
 
 def _turn_shards(tier):
     if tier == "quick":
-        return [("ns == 1",), ("ns == 2", _R1, "not cb", "nq0 <= 1"), ("ns == 2", _R1, "not cb", "nq0 == 2"),
-                ("ns == 2", _R1, "cb")]
+        return [("ns == 1",), ("ns == 2", _R1, "not cb", "nq0 == 0"), ("ns == 2", _R1, "not cb", "nq0 == 1"),
+                ("ns == 2", _R1, "not cb", "nq0 == 2"), ("ns == 2", _R1, "cb")]
     return [("ns == 1",)] + [("ns == 2", "nq0 == %d" % a, "nq1 == %d" % b2) for a in range(3) for b2 in range(3)]
 
 
 def _event_shards(tier):
     if tier == "quick":
-        return [("ns == 1", "loop == 0"), ("ns == 1", "loop == 1", "ev <= 1"), ("ns == 1", "loop == 1", "ev >= 2"),
-                ("ns == 1", "loop == 2")]
+        return [("ns == 1", "loop == 0"), ("ns == 1", "loop == 1", "ev == 0"), ("ns == 1", "loop == 1", "ev == 1"),
+                ("ns == 1", "loop == 1", "ev >= 2"), ("ns == 1", "loop == 2"),
+                # two streams, both in the reduced state set, connection-level WINDOW_UPDATE
+                ("ns == 2", _R1, _R0, "ev == 1", "loop <= 1")]
     return ([("ns == 1", "loop == %d" % l) for l in range(3)]
             + [("ns == 2", _R1, "loop == %d" % l, "ev == %d" % e) for l in range(3) for e in range(4)])
 
@@ -1114,7 +1188,9 @@ def _hist_shards(tier):
     if tier == "quick":
         return ([("o0 == 0", c) for c in ("o1 <= 2", "o1 == 3 or o1 == 4", "o1 == 5 or o1 == 7", "o1 == 8 or o1 == 11")]
                 + [("o0 == %d" % a,) for a in (2, 3, 4, 5, 7, 8)])
-    return [("ns == %d" % n, "o0 == %d" % a, "o1 == %d" % b2) for n in (1, 2) for a in range(11) for b2 in range(12)]
+    return ([("ns == 1", "o0 == %d" % a, c) for a in range(11) for c in ("o1 <= 5", "o1 >= 6")]
+            + [("ns == 2", "o0 == 0", "o1 == %d" % b2) for b2 in (0, 2, 3, 4, 5, 7, 8, 11)]
+            + [("ns == 2", "o0 == %d" % a) for a in (2, 3, 4, 5, 7, 8)])
 
 
 HARNESSES = [
@@ -1123,3 +1199,143 @@ HARNESSES = [
     H(step_app, shards=_app_shards, timeout={"quick": 90, "thorough": 900}),
     H(history, shards=_hist_shards, timeout={"quick": 90, "thorough": 900}, labels=("end", "ops", "live")),
 ]
+
+
+_Z = (0, 0, 0, 0, 0, False, False, 0)
+VECTORS = {
+    # (ns, cw, mfs, cb, pick, stream0..., stream1..., stream2...); stream = (sw, s0, nq, q1, q2, done, act, prod)
+    "step_turn": [(1, 100, 16, False, 0, 50, 0, 1, 20, 0, False, True, 1) + _Z + _Z,
+                  (2, 100, 16, False, 1, 50, 0, 1, 20, 0, False, True, 1, 5, 7, 2, 20, 3, True, True, 0) + _Z,
+                  (2, 100, 16, False, 1, 50, 0, 1, 20, 0, False, True, 1, -5, 7, 2, 20, 3, True, True, 0) + _Z,
+                  (1, 100, 16, False, 0, 50, 0, 0, 0, 0, True, True, 1) + _Z + _Z,
+                  (1, 5, 16384, True, 0, 50, 3, 2, 10, 4, True, True, 2) + _Z + _Z],
+    # (ns, cw, mfs, loop, ev, k, x, streams...)
+    "step_event": [(1, 100, 16, 1, 0, 0, 10, 0, 0, 1, 20, 0, False, False, 2) + _Z + _Z,
+                   (1, 100, 16, 1, 2, 0, 10, 0, 0, 1, 20, 0, False, False, 2) + _Z + _Z,
+                   (1, 0, 16, 1, 1, 0, 10, 7, 0, 1, 20, 0, False, False, 2) + _Z + _Z,
+                   (2, 100, 16, 0, 2, 1, -30, 10, 0, 1, 20, 0, False, True, 1, 10, 0, 1, 5, 0, False, True, 0) + _Z],
+    # (ns, cw, mfs, loop, op, k, x, y, streams...)
+    "step_app": [(1, 100, 16, 1, 0, 0, 10, 0, 0, 0, 1, 20, 0, False, False, 2) + _Z + _Z,
+                 (1, 100, 16, 1, 2, 0, 10, 0, 0, 0, 1, 20, 0, False, False, 2) + _Z + _Z,
+                 (1, 100, 16, 1, 3, 0, 10, 0, 0, 0, 1, 20, 0, False, False, 2) + _Z + _Z,
+                 (1, 100, 16, 2, 6, 0, 0, 0, 40, 0, 2, 20, 7, True, True, 0) + _Z + _Z,
+                 (1, 100, 16, 0, 1, 0, 10, 30, 25, 0, 0, 0, 0, False, False, 1) + _Z + _Z],
+    # (ns, cw, iws, mfs, y, idle0, (o, k, x) * 4); scenarios of test_http2: producerBlockingUnblocking,
+    # endingBlockedStream, producerUnblocked, flowControlExact; then the three fixed defects F1 / F3 (loop asleep,
+    # write at window 0, WINDOW_UPDATE resp. SETTINGS opens the window) and F2 (negative window)
+    "history": [(1, 65535, 5, 16384, 0, False, 0, 0, 10, 3, 0, 5, 4, 0, 5, 3, 0, 5),
+                (1, 65535, 5, 16384, 0, False, 0, 0, 10, 2, 0, 0, 8, 0, 0, 3, 0, 50),
+                (1, 65535, 5, 16384, 0, False, 0, 0, 4, 3, 0, 5, 2, 0, 0, 11, 0, 0),
+                (1, 65535, 5, 16384, 0, False, 0, 0, 5, 8, 0, 0, 0, 0, 5, 3, 0, 5),
+                (1, 100, 0, 16384, 0, True, 0, 0, 10, 3, 0, 100, 11, 0, 0, 11, 0, 0),
+                (1, 100, 0, 16384, 0, True, 0, 0, 10, 5, 0, 100, 11, 0, 0, 11, 0, 0),
+                (1, 1000, 100, 16384, 0, False, 0, 0, 60, 8, 0, 0, 0, 0, 60, 5, 0, 10),
+                (2, 100, 50, 16, 7, False, 1, 1, 10, 2, 1, 0, 0, 0, 33, 7, 0, 0),
+                (2, 10, 50, 3, 7, True, 0, 1, 10, 9, 0, 0, 8, 0, 1, 10, 0, 0)],
+}
+
+
+# ---- stub validation: the fake h2 connection against the real h2 state machine on a concrete corpus ----------
+
+def _h2_differential():
+    import h2.config
+    import h2.connection
+    hdrs = [(":method", "GET"), (":authority", "h"), (":path", "/"), (":scheme", "https")]
+    scripts = [
+        (65535, [("send", 1, 100), ("send", 3, 70000), ("send", 3, 16384), ("send", 3, 16385), ("wu", 0, 10),
+                 ("send", 1, 16384), ("send", 1, 16384), ("send", 1, 16384), ("send", 1, 16184), ("send", 1, 1),
+                 ("wu", 1, 5), ("send", 1, 1), ("wu", 0, 70000), ("send", 1, 5), ("send", 1, 1), ("send", 3, 0),
+                 ("end", 1), ("send", 1, 1), ("send", 3, 10)]),
+        (100, [("send", 1, 60), ("iws", 10), ("send", 1, 1), ("send", 1, 0), ("wu", 1, 49), ("send", 1, 1),
+               ("wu", 1, 2), ("send", 1, 2), ("send", 1, 1), ("iws", 200), ("send", 3, 150), ("send", 3, 51),
+               ("mfs", 20000), ("iws", 70000), ("send", 3, 20001), ("send", 3, 20000), ("rst", 3), ("send", 3, 1),
+               ("end", 1), ("end", 1)]),
+        (0, [("send", 1, 1), ("send", 1, 0), ("wu", 1, 3), ("send", 1, 4), ("send", 1, 3), ("iws", 5), ("send", 3, 6),
+             ("send", 3, 5), ("send", 1, 5), ("send", 1, 6)]),
+    ]
+    n = 0
+    for (iws, script) in scripts:
+        client = h2.connection.H2Connection(config=h2.config.H2Configuration(client_side=True))
+        server = h2.connection.H2Connection(config=h2.config.H2Configuration(client_side=False, header_encoding=None))
+        server.initiate_connection()
+        client.initiate_connection()
+        client.update_settings({_IWS: iws})
+        client.send_headers(1, hdrs, end_stream=True)
+        client.send_headers(3, hdrs, end_stream=True)
+        server.receive_data(client.data_to_send())
+        server.send_headers(1, [(b":status", b"200")])
+        server.send_headers(3, [(b":status", b"200")])
+        fake = _FakeH2(65535, iws, 16384)
+        fake.peer_request(1)
+        fake.peer_request(3)
+        for op in script:
+            res = []
+            for conn in (server, fake):
+                try:
+                    if op[0] == "send":
+                        conn.send_data(op[1], b"x" * op[2])
+                    elif op[0] == "end":
+                        conn.end_stream(op[1])
+                    elif op[0] == "rst":
+                        conn.reset_stream(op[1])
+                    elif conn is fake:
+                        if op[0] == "wu":
+                            fake.peer_window_update(op[1], op[2])
+                        elif op[0] == "iws":
+                            fake.peer_settings_iws(op[1])
+                        else:
+                            fake.peer_settings_mfs(op[1])
+                    else:
+                        if op[0] == "wu":
+                            client.increment_flow_control_window(op[2], op[1] or None)
+                        elif op[0] == "iws":
+                            client.update_settings({_IWS: op[1]})
+                        else:
+                            client.update_settings({_MFS: op[1]})
+                        server.receive_data(client.data_to_send())
+                    out = "ok"
+                except (_hx.FlowControlError, _hx.FrameTooLargeError) as e:
+                    out = type(e).__name__
+                except _hx.ProtocolError:
+                    out = "closed"
+                res.append(out)
+            assert res[0] == res[1], (iws, op, res)
+            for sid in (1, 3):
+                if sid in fake.sw:
+                    assert server.local_flow_control_window(sid) == fake.local_flow_control_window(sid), (iws, op, sid)
+            assert server.max_outbound_frame_size == fake.max_outbound_frame_size
+            n += 1
+        evs = fake.receive_data(b"")
+        assert all(isinstance(e, (_ev.RequestReceived, _ev.WindowUpdated, _ev.RemoteSettingsChanged)) for e in evs)
+    return n
+
+
+def _priority_contract():
+    t = PriorityTree()
+    t.insert_stream(1)
+    t.insert_stream(3)
+    assert next(t) in (1, 3)
+    t.block(1)
+    assert next(t) == 3 and next(t) == 3
+    t.block(3)
+    for bad in (lambda: next(t), lambda: t.insert_stream(3), lambda: t.block(5), lambda: t.unblock(5),
+                lambda: t.remove_stream(5), lambda: t.reprioritize(5)):
+        try:
+            bad()
+        except (DeadlockError, DuplicateStreamError, MissingStreamError):
+            pass
+        else:
+            raise AssertionError("priority contract")
+    t.unblock(1)
+    t.script = [1]
+    assert next(t) == 1
+    t.unblock(3)
+    t.script = [0, 1, 2]
+    assert [next(t), next(t), next(t)] == [1, 3, 3]
+    t.remove_stream(1)
+    assert next(t) == 3
+    return 12
+
+
+def selftest():
+    return rope.selftest() + _h2_differential() + _priority_contract()
